@@ -17,7 +17,7 @@ import (
 )
 
 var (
-	qBudget = map[string]time.Duration{"quick": 100 * time.Second, "thorough": 12 * time.Minute}
+	qBudget = map[string]time.Duration{"quick": 300 * time.Second, "thorough": 12 * time.Minute}
 )
 
 const levelMC = "model_checking"
